@@ -98,6 +98,12 @@ CHECKS = {
         note="Per-process layout is owned through the set seam inside monkeytype.stubs only; the clock of SQLiteStore.add is owned by a seam.",
         ref="DESIGN.md section 4 C14",
     ),
+    "C15": dict(
+        technique="explicit enumeration of generated source modules (feature-toggle product) x stubs MonkeyType itself generates x overwrite/k/confinement flags, through apply_stub_using_libcst and the real `apply` command; AST eraser-and-diff oracle (bounded exhaustive, E1)",
+        text="Sources built from the complete product of feature toggles (comments, docstring, __future__, typing import, partial annotations, decorators, nested defs, module/class level code, conditional defs, one-liners, star and positional-only parameters) are annotated with the stubs MonkeyType generates for traced subsets under every flag combination; the result must parse, equal the original once annotations / added imports / generated TypedDict classes are erased, keep every comment and existing annotation (unless overwrite), contain every stub annotation, and be a fixed point of a second application; the same through `monkeytype apply` rewriting the file.",
+        note="libcst needs ~0.3 s per application: quick uses a 5-toggle product plus single-toggle sources, thorough an 8-toggle product and all subsets.",
+        ref="DESIGN.md section 4 C15",
+    ),
 }
 
 NOT_YET = {}
